@@ -211,6 +211,31 @@ func callSites(f *ast.File, sel, method string) []string {
 	return out
 }
 
+// methodCallSites: the functions that call the method `method` on a plain identifier (r.method(...)), one
+// entry per call, in source order
+func methodCallSites(f *ast.File, method string) []string {
+	var out []string
+	for _, d := range f.Decls {
+		fd, ok := d.(*ast.FuncDecl)
+		if !ok || fd.Body == nil {
+			continue
+		}
+		ast.Inspect(fd.Body, func(n ast.Node) bool {
+			call, ok := n.(*ast.CallExpr)
+			if !ok {
+				return true
+			}
+			if se, ok := call.Fun.(*ast.SelectorExpr); ok && se.Sel.Name == method {
+				if _, ok := se.X.(*ast.Ident); ok {
+					out = append(out, fd.Name.Name)
+				}
+			}
+			return true
+		})
+	}
+	return out
+}
+
 func goStmts(f *ast.File) []string {
 	var out []string
 	for _, d := range f.Decls {
@@ -444,10 +469,17 @@ func main() {
 		}
 		return fmt.Sprintf("def defaultSWRTimeoutNs : Int := %d\n", n.(int)*1_000_000_000)
 	})
-	table(&b, "upstreamCallSites goStatementsRoundtripper transportFieldWriters transportFieldWritersOptions", func() string {
+	table(&b, "upstreamCallSites upstreamWrapperCallSites goStatementsRoundtripper transportFieldWriters transportFieldWritersOptions", func() string {
 		rt := parse(root, "roundtripper.go")
 		tf := transportFields(rt)
+		// the upstream is called in one wrapper (callUpstream: it allocates a nil Header map); the wrapper's
+		// own call sites are where the transport contacts the origin
+		var wrapperSites []string
+		for _, w := range callSites(rt, "upstream", "RoundTrip") {
+			wrapperSites = append(wrapperSites, methodCallSites(rt, w)...)
+		}
 		return leanStrList("upstreamCallSites", callSites(rt, "upstream", "RoundTrip")) +
+			leanStrList("upstreamWrapperCallSites", wrapperSites) +
 			leanStrList("goStatementsRoundtripper", goStmts(rt)) +
 			leanStrList("transportFieldWriters", transportFieldWriters(rt, tf)) +
 			leanStrList("transportFieldWritersOptions", transportFieldWriters(parse(root, "options.go"), tf))
